@@ -43,6 +43,7 @@ echo "rc: demo-without=$r1 demo-with=$r2 existing-with=$r3   (want 0, non-0, 0)"
 cd /verif
 git -C /repo worktree remove --force $wt
 rm -rf /tmp/seed/v-$id-target
+[ -n "$SKIP_MC" ] && exit 0
 echo "== (4) the check, in isolation"
 env -u CARGO_TARGET_DIR tools/mutcheck.py ${id%%-*} $out/patch.diff > /tmp/seed/v-$id-step4.log 2>&1
 grep -E "VIOLATION|mutcheck:|theorems checked|obligation|KNOWN" /tmp/seed/v-$id-step4.log | tail -6
